@@ -13,7 +13,7 @@ use crate::engine::*;
 use crate::models::canonical_ip;
 use crate::vensure;
 
-pub const RULE: &str = "generated (source address of both families incl. IPv4-mapped, max_connection_age incl. 0 and u32::MAX, issue time t0, check time t1 placed at t0+age-1/age/age+1, t0-59/-60/-61 and random) executed against the real ConnectionValidator with its clock set through the verif hook; oracle = reference rule V (same canonical IP and t0+age>t1 and t0<=t1+60, evaluated in i128) in both directions, plus must-reject checks from every address one bit away from the issuing one and from addresses carrying the same bytes in another representation (other family, zero-padded, IPv4-compatible / SIIT / NAT64 / 6to4 embeddings, reversed, halves swapped), for every single-bit flip of the id, generated double flips, random ids, ids of a second validator (fresh key) and ids issued for another address (an accepted forgery is re-tried under two fresh keys before it is reported, so a 2^-32 MAC collision cannot raise an alarm). non-trivial = t1 within 1 s of an acceptance boundary or age in {0, >= u32::MAX-1}; distinct = distinct serialised case";
+pub const RULE: &str = "generated (source address of both families incl. IPv4-mapped, max_connection_age incl. 0 and u32::MAX, issue time t0, check time t1 placed at t0+age-1/age/age+1, t0-59/-60/-61 and random) executed against the real ConnectionValidator with its clock set through the verif hook; oracle = reference rule V (same canonical IP and t0+age>t1 and t0<=t1+60, evaluated in i128) in both directions, plus must-reject checks from every address one bit away from the issuing one and from addresses carrying the same bytes in another representation (other family, zero-padded, IPv4-compatible / SIIT / NAT64 / 6to4 embeddings, reversed, halves swapped), for every single-bit flip of the id, generated double flips, random ids, ids of a second validator (fresh key) and ids issued for another address (an accepted forgery is re-tried under two fresh keys before it is reported, so a 2^-32 MAC collision cannot raise an alarm). non-trivial = t1 within 1 s of an acceptance boundary or age in {0, >= u32::MAX-1}; distinct = distinct serialised case. Sub-check wire-window: running udp trackers (mio and io_uring, 1-3 socket workers, 6 client sockets on 127.0.0.1-4, max_connection_age 12-15 s, thorough up to 40 s) against real time: an id is accepted when issued and 3 s later, rejected (no reply before a fence) 9 s after the window has closed, and a fresh id is accepted at once";
 
 #[derive(Debug, Clone, Copy, Serialize, Deserialize, PartialEq)]
 pub enum IpSpec {
@@ -426,8 +426,9 @@ fn strategy() -> impl Strategy<Value = Case> {
 }
 
 pub fn run(ctx: &mut Ctx) {
-    ctx.assume("the validator's seconds_since_start is set through the verif hook instead of Instant::now(); update_elapsed itself (dur.as_secs() as u32) is not exercised");
+    ctx.assume("the validator's seconds_since_start is set through the verif hook instead of Instant::now(); update_elapsed itself (dur.as_secs() as u32) and its callers in the socket workers are exercised by the `wire-window` sub-check against real time");
     ctx.assume("keyed BLAKE3 is a PRF; acceptance of an altered id is re-tried under two fresh keys before being reported");
+    let clock = crate::checks::clock::Background::start(crate::checks::clock::conn_clock_cases(ctx.seed, ctx.tier), crate::checks::clock::prop_conn_clock);
     ctx.run_regress::<Case, _>("window", prop);
     let n = ctx.tier.pick(60_000, 2_000_000);
     ctx.run_prop("window", n, strategy, prop);
@@ -436,8 +437,17 @@ pub fn run(ctx: &mut Ctx) {
     ctx.require_label("window", "accepted", 0.10);
     ctx.require_label("window", "rejected", 0.10);
     ctx.require_label("window", "related-address-tried", 0.9);
+    // on the wire against real time: the socket workers keep the validator's clock current
+    ctx.confirm_runs = 2;
+    ctx.run_regress::<crate::checks::clock::ConnClockCase, _>("wire-window", crate::checks::clock::prop_conn_clock);
+    clock.finish(ctx, "wire-window", crate::checks::clock::prop_conn_clock);
+    ctx.confirm_runs = 0;
+    ctx.require_label("wire-window", "rejected-after-window", 0.7);
 }
 
 pub fn replay(path: &str, _sub: &str, case: serde_json::Value) -> i32 {
+    if _sub == "wire-window" {
+        return replay_one::<crate::checks::clock::ConnClockCase, _>("C05", path, case, crate::checks::clock::prop_conn_clock);
+    }
     replay_one::<Case, _>("C05", path, case, prop)
 }
